@@ -503,6 +503,9 @@ def run(ctx):
     ctx.pmap(vanished_worker, [(k, max(2, nv // nw), ctx.seed) for k in range(nw)])
     ctx.pmap(many_failures_worker, [(k, c_, ctx.seed) for k, c_ in enumerate([[255], [256], [257], [512], [1], [2, 3], [768, 1024]])])
     ctx.require("runs_with_hundreds_of_failed_removals", 7)
+    import deep
+    ctx.pmap(deep.deep_worker, [("delete", k, 1 if ctx.quick else 6, ctx.seed) for k in range(common.NCPU)])
+    ctx.require("runs_over_a_tree_deeper_than_the_open_files_limit", 8)
     ctx.pmap(dot_worker, [(k, ctx.scale(8, 600), ctx.seed) for k in range(nw)])
     ctx.require("runs_with_dot_among_the_starting_points", 50)
     ctx.require("vanished_entries_evaluated", 10)
